@@ -119,11 +119,14 @@ def make_stream(rng, case, rows, mode):
         vcounts = []
         ncorners = rows * k
     lim, eff = limits(case, nind)
+    # values beyond int32 only where the array can hold them (create* with a wide dtype)
+    big = BIG + ([2 ** 32 - 1] if via == 'create' and case.get('dtype') in ('int64', 'uint32') else []) \
+        + ([2 ** 40] if via == 'create' and case.get('dtype') == 'int64' else [])
     flat = []
     for _ in range(ncorners):
         for o in range(nind):
             if lim[o] is None:
-                flat.append(rng.choice([0, 1, 7, rng.choice(BIG)]))
+                flat.append(rng.choice([0, 1, 7, rng.choice(big)]))
             elif lim[o] == 0:
                 flat.append(rng.randint(0, 2))
             else:
@@ -132,7 +135,7 @@ def make_stream(rng, case, rows, mode):
         off, sem, sid = rng.choice(eff)
         n = case['srcs'][sid][0]
         pos = rng.choice([0, ncorners - 1, rng.randrange(ncorners)])
-        excess = rng.choice([0, 0, 1, 2] + [b - n for b in BIG])
+        excess = rng.choice([0, 0, 1, 2] + [b - n for b in big])
         flat[pos * nind + off] = n + excess
     if mode == 'ragged':
         period = k * nind
@@ -388,6 +391,7 @@ def run(ctx):
     seen = set()
     dist = {'by_kind': {}, 'by_via': {}, 'by_mode': {}, 'accepted': 0, 'rejected_by_code': {},
             'judged_bad': {}, 'inputs_histogram': {}, 'zero_rows': 0, 'corpus_cases': ncorpus,
+            'with_prelude_constructions': 0, 'with_param_name_forms': 0, 'index_dtypes': {},
             'exhaustive_slice_cases': nexh}
     for c, r in zip(cases, results):
         dist['by_kind'][c['kind']] = dist['by_kind'].get(c['kind'], 0) + 1
@@ -402,6 +406,10 @@ def run(ctx):
         for b in (r.get('bad') or []):
             dist['judged_bad'][b] = dist['judged_bad'].get(b, 0) + 1
         if c['kind'] != 'source':
+            dist['with_prelude_constructions'] += 1 if c.get('prelude') else 0
+            dist['with_param_name_forms'] += 1 if c.get('pnames') else 0
+            if c['via'] == 'create':
+                dist['index_dtypes'][c.get('dtype', 'int32')] = dist['index_dtypes'].get(c.get('dtype', 'int32'), 0) + 1
             n = str(len(c['inputs']))
             dist['inputs_histogram'][n] = dist['inputs_histogram'].get(n, 0) + 1
         nontrivial = r['code'] != 0 or (r['acc'] and r['acc'][1] > 0)
@@ -413,7 +421,9 @@ def run(ctx):
         'rule': 'random layouts (1-8 inputs over the 8 semantics, shared/distinct/gapped/mixed offsets, several texcoord/'
                 'tangent sets, sources of 0-8 rows, occasionally wrong component counts, unresolved references, a '
                 '<vertices> indirection on the load path) x index streams in range, out of range by 1/2/3 and by a lot '
-                '(up to 2^31-1) at the first, last or a random corner of one input, ragged streams, vcount mismatches; '
+                '(up to 2^31-1; 2^32-1 / 2^40 with uint32 / int64 arrays) at the first, last or a random corner of one input, ragged '
+                'streams, vcount mismatches (incl. no vcounts at all); accessor <param> naming forms on the load path; earlier '
+                'constructions on the same geometry (create path); '
                 'built through create* (65%) or by loading a generated document (35%); plus FloatSource stride cases. '
                 'non-trivial = rejected, or accepted with at least one row; distinct = different canonical case',
         'samples': [{'case': c, 'observed': {k: r.get(k) for k in ('code', 'acc')}}
